@@ -16,3 +16,8 @@ func (in *Interp) threadUserEvent(e Event) {}
 func (in *Interp) declareThread(fr *frame, name string, fn Value) {
 	panic(engineErr{"thread mode not available"})
 }
+
+// RunSched runs a schedule-layer harness (placeholder until the layer is built).
+func RunSched(l *Loaded, f interface{}, params map[string]int, workers, timeoutMs int, verbose bool) *HarnessResult {
+	return &HarnessResult{Harness: "sched", EngineErrors: map[string]int{"schedule layer not built": 1}, Statuses: map[string]int{}, Reached: map[string]int{}, Distinct: map[string]bool{}, Funcs: map[string]bool{}, Stubs: map[string]bool{}}
+}
